@@ -247,15 +247,17 @@ pub fn run(ctx: &Ctx) -> ! {
     let mut rep = Report::new(
         ctx,
         "model_checking",
-        "explicit-state breadth-first search to a FIXPOINT over the alphabet add(kind in {operation, job, printer, unsupported}, name in {a,b[,c]}, value in {1,2}) from the empty container and from parser-produced messages with repeated / empty groups; every state is rebuilt as a fresh real IppAttributes from its history (IppAttributes::new or IppParser::parse_parts, then add ... add), the operation is applied to the real object and to the ordered model R6, and groups(), groups_of(kind) for all four kinds and into_groups() are compared with the model on every transition. Value traversal: every value of the bounded value space, IntoIterator compared element-by-element (pointer identity) with the model sequence, then None three times. states = distinct canonical container states; non-trivial = more than one attribute",
+        "explicit-state breadth-first search to a FIXPOINT over the alphabet add(kind in {operation, job, printer, unsupported}, name in {a,b}, value in {1,2[,3]}) from the empty container and from parser-produced messages with repeated / empty groups; every state is rebuilt as a fresh real IppAttributes from its history (IppAttributes::new or IppParser::parse_parts, then add ... add), the operation is applied to the real object and to the ordered model R6, and groups(), groups_of(kind) for all four kinds and into_groups() are compared with the model on every transition. Value traversal: every value of the bounded value space, IntoIterator compared element-by-element (pointer identity) with the model sequence, then None three times. states = distinct canonical container states; non-trivial = more than one attribute",
     );
     rep.assume("canonicalisation (ordered list of (kind, sorted name->value map)) merges only states with equal futures: add/groups_of depend on group kinds in order and on map contents only");
 
-    let names: &[u8] = ctx.tier.pick(&b"ab"[..], &b"abc"[..]);
+    // thorough: a third VALUE (not a third name: 3 names x 2 values has 1.1e7 states from the empty container alone)
+    let names: &[u8] = &b"ab"[..];
+    let values: &[i32] = ctx.tier.pick(&[1, 2][..], &[1, 2, 3][..]);
     let mut ops = vec![];
     for k in KINDS {
         for &n in names {
-            for v in [1, 2] {
+            for &v in values {
                 ops.push(Op { kind: k, name: n, value: v });
             }
         }
@@ -378,7 +380,7 @@ pub fn run(ctx: &Ctx) -> ! {
         traverse_all(&v, &mut st, &json!("atom"));
     }
     rep.section("value-traversal", st);
-    rep.set("alphabet", json!(format!("{} operations: kinds {:?} x names {:?} x values [1,2]", ops.len(), KINDS, names.iter().map(|c| *c as char).collect::<Vec<_>>())));
+    rep.set("alphabet", json!(format!("{} operations: kinds {:?} x names {:?} x values {:?}", ops.len(), KINDS, names.iter().map(|c| *c as char).collect::<Vec<_>>(), values)));
     rep.set("initial_states", json!(inits.len()));
     rep.finish()
 }
